@@ -166,6 +166,46 @@ theorem statistics_consistent (ops : List Op) :
   · simp only [getStats]; exact h.perm.countP_eq _
 
 /-! Non-vacuity: a history with a rejected duplicate, a removal that shifts positions, a re-add, a toggle. -/
+/-- **Bulk loading is a prefix of the one-by-one history.** `add_rules_from_grl` applies exactly the calls
+before the first rejected duplicate: the applied calls are `ops.take k`, none of them is rejected, the load
+reports failure iff `k < ops.length`, and then the `k`-th call is rejected (`errDup`) in the state the first `k`
+left. So every theorem above about histories (`kb_refines_spec`, `lookup_latest`, `listing_once_sorted_stable`,
+`index_consistent`, `version_strictly_increases`) applies to the state after a bulk load, with the history
+`pre ++ ops.take k`. -/
+theorem bulk_load_is_prefix (kb : KB) (ops : List Op) :
+    ∃ k, k ≤ ops.length ∧ (bulkApplied kb ops).1 = ops.take k ∧
+      (∀ j (h : j < k), (outs kb ops)[j]? ≠ some .errDup) ∧
+      ((bulkApplied kb ops).2 = false → k = ops.length) ∧
+      ((bulkApplied kb ops).2 = true → (outs kb ops)[k]? = some .errDup) := by
+  induction ops generalizing kb with
+  | nil => exact ⟨0, by simp [bulkApplied, outs]⟩
+  | cons op rest ih =>
+    by_cases hd : (step kb op).2 = .errDup
+    · refine ⟨0, by simp, ?_, by simp, ?_, ?_⟩
+      · simp [bulkApplied, hd]
+      · simp [bulkApplied, hd]
+      · intro _; simp [outs, hd]
+    · obtain ⟨k, hk, htake, hpre, hok, hfail⟩ := ih (step kb op).1
+      have hb : bulkApplied kb (op :: rest) =
+          (op :: (bulkApplied (step kb op).1 rest).1, (bulkApplied (step kb op).1 rest).2) := by
+        generalize hs : step kb op = so at hd ⊢
+        obtain ⟨kb', o⟩ := so
+        cases o <;> first | exact absurd rfl hd | simp [bulkApplied, hs]
+      refine ⟨k + 1, by simp; omega, ?_, ?_, ?_, ?_⟩
+      · rw [hb]; simp [htake]
+      · intro j hj
+        cases j with
+        | zero => simp [outs, hd]
+        | succ j => simpa [outs] using hpre j (by omega)
+      · rw [hb]; intro h; simp [hok h]
+      · rw [hb]; intro h; simpa [outs] using hfail h
+
+/-- the state a bulk load leaves is the state of the one-by-one history of the applied calls -/
+theorem bulk_load_state (pre ops : List Op) :
+    (bulkApplied (run pre) ops).1.foldl (fun kb op => (step kb op).1) (run pre)
+      = run (pre ++ (bulkApplied (run pre) ops).1) := by
+  simp [run, List.foldl_append]
+
 def exOps : List Op :=
   [.add ⟨0, 0, true, 0⟩, .add ⟨1, 10, true, 1⟩, .add ⟨2, 0, true, 2⟩, .add ⟨1, -5, true, 3⟩,
    .remove 1, .add ⟨1, 0, true, 5⟩, .setEnabled 2 false, .remove 7]
